@@ -26,7 +26,8 @@ class Ty:
 class TPrim(Ty):
     def __init__(self, kind): self.kind = kind; self.key = kind
 TInt, TBool, TStr, TFloat, TNone = (TPrim(k) for k in ('int', 'bool', 'str', 'float', 'none'))
-TBytes = TPrim('bytes')   # byte strings as z3 strings of code points 0..255 (latin-1 view)
+TBytes = TPrim('bytes')
+TFlags = TPrim('flags')   # enum.IntFlag values: 64-bit vectors   # byte strings as z3 strings of code points 0..255 (latin-1 view)
 TExc = TPrim('exc')   # python-level exception value (never packed)
 
 class TEnum(Ty):
@@ -141,6 +142,7 @@ def sort_of(ty):
     if ty is TInt: s = z3.IntSort()
     elif ty is TBool: s = z3.BoolSort()
     elif ty is TStr or ty is TBytes: s = z3.StringSort()
+    elif ty is TFlags: s = z3.BitVecSort(64)
     elif ty is TFloat: s = z3.RealSort()
     elif ty is TNone:
         s, _ = z3.EnumSort('NoneT', ['none_v'])
@@ -291,6 +293,8 @@ def join_ty(a, b):
     if a is TBool and b is TInt or a is TInt and b is TBool: return TInt
     if isinstance(a, TEnum) and a.intvalued and b is TInt: return TInt
     if isinstance(b, TEnum) and b.intvalued and a is TInt: return TInt
+    if isinstance(a, TRef) and a.universal and isinstance(b, TRef): return a
+    if isinstance(b, TRef) and b.universal and isinstance(a, TRef): return b
     if isinstance(a, TRef) and a.universal and b in (TStr, TInt, TBool): return a
     if isinstance(b, TRef) and b.universal and a in (TStr, TInt, TBool): return b
     if isinstance(a, TTuple) and isinstance(b, TTuple) and len(a.items) == len(b.items):
@@ -330,6 +334,7 @@ def coerce(v, ty):
     if isinstance(v.ty, TTuple) and not v.t and isinstance(ty, (TMap, TSet)):
         if isinstance(ty, TSet): return V(ty, (empty_set_term(ty.elem), z3.IntVal(0)))
         return V(ty, (empty_set_term(ty.k), z3.K(sort_of(ty.k), pack(default_value(ty.v))), z3.IntVal(0)))
+    if isinstance(ty, TRef) and ty.universal and isinstance(v.ty, TRef): return V(ty, v.t)     # any object is an object
     if isinstance(ty, TRef) and ty.universal and v.ty in (TStr, TInt, TBool):
         return V(ty, box_term(v))
     if ty is TInt and v.ty is TBool: return V(TInt, z3.If(v.t, z3.IntVal(1), z3.IntVal(0)))
@@ -421,6 +426,8 @@ def veq(a, b):
         ty = join_ty(ta, tb); a = coerce(a, ty); b = coerce(b, ty)
         return z3.And(a.t[0] == b.t[0], z3.Or(a.t[0], veq(a.t[1], b.t[1])))
     if ta is TExc or tb is TExc: raise Unsupported('== on exceptions')
+    if ta is TFlags and tb in (TInt, TBool): return a.t == z3.Int2BV(coerce(b, TInt).t, 64)
+    if tb is TFlags and ta in (TInt, TBool): return b.t == z3.Int2BV(coerce(a, TInt).t, 64)
     if isinstance(ta, TPrim) and isinstance(tb, TPrim):
         if ta is tb: return a.t == b.t
         if {ta, tb} == {TInt, TBool}: return coerce(a, TInt).t == coerce(b, TInt).t
@@ -470,6 +477,7 @@ def truth(v):
     if ty is TInt: return v.t != 0
     if ty is TFloat: return v.t != 0
     if ty is TStr or ty is TBytes: return z3.Length(v.t) > 0
+    if ty is TFlags: return v.t != 0
     if ty is TNone: return z3.BoolVal(False)
     if isinstance(ty, TOpt): return z3.And(z3.Not(v.t[0]), truth(v.t[1]))
     if isinstance(ty, TSeq): return v.t[0] > 0
